@@ -383,6 +383,15 @@ def check_sorting(ctx):
     import re._constants as sre_c
 
     repo = ctx.repo
+    # the key is a list whose positions alternate text / number *for every name*, so that two keys are compared position by
+    # position like with like; that alternation is what `re.split` with one capturing group gives (text, digits, text, ... with a
+    # leading '' for a name that starts with a digit). Runs produced by itertools.groupby have no such alignment: "2theta" starts
+    # with a number where "theta_1" starts with text, and comparing the two keys raises TypeError
+    nk0 = repo.func(f"{SO}:natural_key")
+    for c in body_walk(nk0.node):
+        if isinstance(c, ast.Call) and (dotted(c.func) or "").split(".")[-1] == "groupby" and any("isdigit" in norm(x) or "isdecimal" in norm(x) or "isnumeric" in norm(x) for x in list(c.args[1:]) + [k.value for k in c.keywords]):
+            ctx.violation(R5, nk0.key + ":construction", f"natural_key splits the name into runs with `{short(c, 80)}`: unlike re.split with a capturing group, the runs of a name that starts with a digit begin with a number while other names begin with text, so the keys are not aligned position by position -- sorting a list that mixes such names compares int with str (TypeError) instead of ordering them", f"{nk0.module.relpath}:{c.lineno}")
+            return
     conv = repo.func(f"{SO}:_convert_string_to_int_if_possible")
     ctx.analysed(conv)
     t = positional_params(conv.node)[0]
